@@ -1,4 +1,5 @@
 import PoaVerif.Model.Trig
+import PoaVerif.Model.Pre
 import PoaVerif.Facts
 /-
   Line-protocol driver: reads operation lines (Tie B protocol, DESIGN.md appendix A) on stdin,
@@ -186,6 +187,9 @@ partial def runBlocks (s : App) (set : CSet) (halted : Bool) : P Unit := do
       | .error hk =>
         out s!"H {h}"
         for t in trigLines theEnv s b do out t
+        let pre := match App.beforeEnd theEnv s b with | .ok (_, sp) => Pre sp set | .error _ => false
+        out s!"PRE {if pre then 1 else 0}"
+        out "STEP 0"
         out (match hk with | .panic => "HALT panic" | .error => "HALT error")
         runBlocks s set true
       | .ok (bo, s') =>
@@ -196,11 +200,15 @@ partial def runBlocks (s : App) (set : CSet) (halted : Bool) : P Unit := do
           i := i + 1
         for t in trigLines theEnv s b do out t
         out ("UPD" ++ pairs bo.updates)
+        let pre := match App.beforeEnd theEnv s b with | .ok (_, sp) => Pre sp set | .error _ => false
+        out s!"PRE {if pre then 1 else 0}"
         match Comet.applyChangeSet set bo.updates with
         | .error ce =>
+          out s!"STEP 0"
           out s!"HALT comet:{cometErrStr ce}"
           runBlocks s' set true
         | .ok set' =>
+          out s!"STEP {if stepAgrees set' s' then 1 else 0}"
           out ("COMET" ++ pairs set')
           for l in observe s' do out l
           runBlocks s' set' false
